@@ -402,7 +402,7 @@ func init() {
 			c.describe("C11.c", "flow: cluster plans return through addOrderLimitOffset with HAVING in between (see C09.c, C08.b)")
 			ruleC09c(c, "C11.c")
 			ruleC08b(c, "C11.c")
-		}, func(c *Ctx) { ruleC11d(c, "C11.d") }},
+		}, func(c *Ctx) { ruleC11d(c, "C11.d") }, func(c *Ctx) { ruleC11e(c, "C11.e") }},
 	})
 }
 
@@ -451,4 +451,67 @@ func ruleC11d(c *Ctx, rule string) {
 	} else {
 		c.bad(rule, "planLocal: named group-by dimensions force the group-by", gb[0].Pos(), "a query with GROUP BY *, <expr> AS <name> is planned without a group-by stage (needsGroupBy ignores len(query.GroupBy)): on a cluster the partitions return rows without the derived dimension (e.g. _crosstab), so the leader's result differs from the local plan (and, before da74b7a, panicked)")
 	}
+}
+
+// ruleC11e: nested IN-subqueries forbid whole-query pushdown.
+func ruleC11e(c *Ctx, rule string) {
+	c.describe(rule, "dom: pushdownAllowed inspects the WHERE of every nested level for IN-subqueries (WalkLists + comma-ok assertion to *sql.SubQuery) and that outcome cannot reach 'return true' — only the outermost query's sub-query results are shipped to the partitions")
+	pa := c.need(rule, "z/planner.pushdownAllowed")
+	if pa == nil {
+		return
+	}
+	var walk ssa.CallInstruction
+	for _, call := range calls(pa) {
+		if calleeName(call) == "invoke (github.com/getlantern/goexpr.Expr).WalkLists" && isFieldLoad(call.Common().Value, "z/sql.Query.Where") {
+			walk = call
+		}
+	}
+	if walk == nil {
+		c.bad(rule, "pushdownAllowed: nested IN-subqueries forbid pushdown", pa.Pos(), "pushdownAllowed never looks for IN-subqueries in the WHERE of nested FROM-subqueries: such a query is pushed down whole and each partition evaluates the IN-subquery against its own rows only")
+		return
+	}
+	// the callback detects *sql.SubQuery and sets a captured flag
+	var flag ssa.Value
+	if mc, ok := walk.Common().Args[0].(*ssa.MakeClosure); ok {
+		cb := mc.Fn.(*ssa.Function)
+		c.touch(cb)
+		detects := false
+		for _, in := range instrs(cb) {
+			if ta, isTA := in.(*ssa.TypeAssert); isTA && ta.CommaOk && typeStr(ta.AssertedType) == "*z/sql.SubQuery" {
+				detects = true
+			}
+			if st, isSt := in.(*ssa.Store); isSt {
+				if b, isC := constBool(st.Val); isC && b {
+					flag = cellRoot(st.Addr)
+				}
+			}
+		}
+		if !detects {
+			flag = nil
+		}
+	}
+	ok := false
+	if flag != nil {
+		for _, ci := range findIfs(pa, func(v ssa.Value) bool {
+			u, isU := v.(*ssa.UnOp)
+			return isU && u.Op == token.MUL && cellRoot(u.X) == flag
+		}) {
+			leak := false
+			for bb := range reach([]*ssa.BasicBlock{ci.succFor(true)}, nil, nil) {
+				if len(bb.Instrs) > 0 {
+					if r, isR := bb.Instrs[len(bb.Instrs)-1].(*ssa.Return); isR && len(r.Results) == 2 {
+						if v, isC := constBool(r.Results[0]); isC && v {
+							leak = true
+						}
+					}
+				}
+			}
+			if !leak {
+				ok = true
+			}
+		}
+	}
+	// it must apply to nested levels (not only the outermost): the walk is inside the loop over FromSubQuery levels
+	inLoop := len(loopsContaining(pa, walk.Block())) > 0
+	c.check(rule, "pushdownAllowed: nested IN-subqueries forbid pushdown", walk.Pos(), ok && inLoop, "a nested level whose WHERE contains a *sql.SubQuery returns false", "the nested IN-subquery test does not prevent 'return true'")
 }
